@@ -18,6 +18,8 @@
 EXTENDS ConstsData, Integers, Sequences, FiniteSets, TLC
 
 Built == {i \in 1..Len(Targets) : Targets[i].builds}
+\* GOOS values that satisfy the `linux` build constraint (the real loader is compiled there, not the stubs)
+LinuxFamily == {"linux", "android"}
 ConstNames == {"ActionKillThread", "ActionKillProcess", "ActionTrap", "ActionErrno", "ActionTrace", "ActionLog", "ActionAllow", "ActionUserNotify",
                "FilterFlagTSync", "FilterFlagLog", "seccompSetModeStrict", "seccompSetModeFilter", "prSetNoNewPrivs", "errnoEPERM"}
 \* every exposed constant equals the kernel's value on every target that builds
@@ -25,14 +27,14 @@ ConstsOK ==
   \A i \in Built :
     /\ \A n \in ConstNames : Targets[i].consts[n] = UAPI[n]
     /\ Targets[i].consts["errnoENOSYS"] =
-         (IF Targets[i].goos = "linux" THEN ENOSYSof[Targets[i].goarch] ELSE UAPI["errnoENOSYS"])
+         (IF Targets[i].goos \in LinuxFamily THEN ENOSYSof[Targets[i].goarch] ELSE UAPI["errnoENOSYS"])
 \* hence a policy compiles to the same program wherever it is compiled for a
 \* given table: the values the compiler embeds do not depend on the target
 SameEverywhere ==
   \A i, j \in Built : \A n \in ConstNames : Targets[i].consts[n] = Targets[j].consts[n]
 \* non-Linux targets: the stubs report "unsupported" and do nothing
 StubsOK ==
-  \A i \in Built : Targets[i].goos # "linux" =>
+  \A i \in Built : Targets[i].goos \notin LinuxFamily =>
     /\ Len(Targets[i].stubs) = 3
     /\ \A k \in 1..Len(Targets[i].stubs) :
          LET s == Targets[i].stubs[k] IN
